@@ -49,6 +49,9 @@ type BEOp struct {
 	Mutate   bool   `json:"mutate,omitempty"`   // overwrite the key buffer right after the call returned (C09)
 	NilVal   bool   `json:"nil_val,omitempty"`  // write / store a nil interface value (untyped backends)
 	CtxDone  bool   `json:"ctx_done,omitempty"` // the call gets an already cancelled context (no backend result depends on it)
+	// restoreServed (C12): eviction strategy of the source cache and how often it served the entry there
+	SrcStrategy int `json:"src_strategy,omitempty"`
+	SrcServes   int `json:"src_serves,omitempty"`
 }
 
 // BEScenario is the backend engine's part of a scenario.
